@@ -52,16 +52,11 @@ done:
 	return ret;
 }
 
-static int pack_files(sqfs_block_processor_t *data, fstree_t *fs,
-		      options_t *opt)
+static int pack_files_cwd(sqfs_block_processor_t *data, fstree_t *fs,
+			  options_t *opt)
 {
 	tree_node_t *node;
 	int ret;
-
-	if (opt->packdir != NULL && chdir(opt->packdir) != 0) {
-		perror(opt->packdir);
-		return -1;
-	}
 
 	for (node = fs->files; node != NULL; node = node->next_by_type) {
 		const char *path = node->data.file.input_file;
@@ -91,6 +86,52 @@ static int pack_files(sqfs_block_processor_t *data, fstree_t *fs,
 	}
 
 	return 0;
+}
+
+/*
+  Input files are opened relative to the pack directory. Go back to where we
+  came from afterwards, the output file name (that has to be removed if
+  something goes wrong later on) is relative to the original directory.
+ */
+static int pack_files(sqfs_block_processor_t *data, fstree_t *fs,
+		      options_t *opt)
+{
+#if defined(_WIN32) || defined(__WINDOWS__)
+	if (opt->packdir != NULL && chdir(opt->packdir) != 0) {
+		perror(opt->packdir);
+		return -1;
+	}
+
+	return pack_files_cwd(data, fs, opt);
+#else
+	int ret, cwd = -1;
+
+	if (opt->packdir != NULL) {
+		cwd = open(".", O_RDONLY | O_DIRECTORY);
+		if (cwd < 0) {
+			perror("opening current directory");
+			return -1;
+		}
+
+		if (chdir(opt->packdir) != 0) {
+			perror(opt->packdir);
+			close(cwd);
+			return -1;
+		}
+	}
+
+	ret = pack_files_cwd(data, fs, opt);
+
+	if (cwd >= 0) {
+		if (fchdir(cwd) != 0) {
+			perror("returning to original directory");
+			ret = -1;
+		}
+		close(cwd);
+	}
+
+	return ret;
+#endif
 }
 
 int main(int argc, char **argv)
